@@ -424,7 +424,19 @@ def run_property(here, repo, prop, cfg, tier, seed, tmp, t0):
         checker_cmds += extra_cmds
 
     if vac_unreached:
-        bad = [o for o in vac_unreached if not any(o["func"] == fn and sub in o.get("exit_text", "") for (fn, sub) in P.VACUITY_ALLOWED)]
+        bad = []
+        used = {}
+        for o in vac_unreached:
+            ok = False
+            for ent in P.VACUITY_ALLOWED:
+                fn, sub = ent[0], ent[1]
+                mx = ent[2] if len(ent) > 2 else 10 ** 6
+                if o["func"] == fn and sub in o.get("exit_text", "") and used.get(ent, 0) < mx:
+                    used[ent] = used.get(ent, 0) + 1
+                    ok = True
+                    break
+            if not ok:
+                bad.append(o)
         if bad:
             raise Undecided("vacuity guard: assert(false) at an exit was PROVED (contradictory pre-conditions or unreachable exit) in: %s" % sorted(set(o["func"] + " @ " + o.get("exit_text", "") for o in bad)))
     if not all_obs and not extra_obs:
